@@ -168,13 +168,13 @@ def run_cases(ck, res, n_cases, n_interval):
             ck.add_case(('nocondition', kk, m))
             if tuple(out.shape) != tuple(raw.shape) or not torch.equal(out, raw):
                 ck.fail('nocondition/not-identity', f'NoCondition changed the raw output for {m} inputs, {kk} outputs', {'in': m, 'out': kk})
-            for unit in range(kk):
+            for unit in list(range(kk)) + [-1, -kk]:       # Python-style negative unit indices address the same columns
                 c = C.IVP(t_0=0.5, u_0=1.25) if (m == 1 and unit % 2 == 0) else C.NoCondition()
                 with warnings.catch_warnings():
                     warnings.simplefilter('ignore')
                     c.set_impose_on(unit)
                 got = c.enforce(net, *X)
-                exp = c.parameterize(raw[:, unit:unit + 1], *X)
+                exp = c.parameterize(raw[:, unit % kk:unit % kk + 1], *X)
                 ck.add_case(('unit', kk, m, unit))
                 if tuple(got.shape) != tuple(exp.shape) or not torch.allclose(got, exp, rtol=1e-12, atol=1e-12):
                     ck.fail('ith_unit/wrong-column', f'ith_unit={unit}: enforce differs from parameterize(output column {unit})', {'in': m, 'out': kk, 'unit': unit})
@@ -206,14 +206,14 @@ def run_cases(ck, res, n_cases, n_interval):
             shared = make_net(cols)
             nrows = r.choice([2, 3, 5])
             X = [enga.col(torch, [dy(r, 0.6, 1.9, 4) if (m == 3 and j == 0) else dy(r, -0.9, 0.9, 4) for _ in range(nrows)]) for j in range(m)]
-            for unit in range(kk):
+            for unit in list(range(kk)) + [-1]:
                 ck.add_case(('unit-path', cname, kk, unit, rep))
                 try:
                     with warnings.catch_warnings():
                         warnings.simplefilter('ignore')
                         c_sel = mkc(); c_sel.set_impose_on(unit)
                         got = c_sel.enforce(shared, *X)
-                        exp = mkc().enforce(make_net([cols[unit]]), *X)
+                        exp = mkc().enforce(make_net([cols[unit % kk]]), *X)
                 except Exception as e:
                     ck.fail(f'ith_unit/{cname}/raises', f'{cname} with set_impose_on({unit}) raised {type(e).__name__}: {e}', {'class': cname, 'outputs': kk, 'unit': unit})
                     continue
